@@ -934,8 +934,7 @@ theorem interpCommand_error (kind : TfKind) (tf : String → Except E String) (e
       obtain ⟨y, hy, hye⟩ := interpValuesS_error tf e' _ h5
       refine ⟨y, ?_, hye⟩
       simp only [stringsCommand, List.mem_cons, List.mem_append]
-      trace_state
-      exact .inr (.inr (.inl (.inr hy)))
+      exact .inl (.inr hy)
     | ok a5 =>
     simp only [h5] at h
     cases h8 : interpUMapV tf c.rem with
@@ -1022,7 +1021,7 @@ theorem interpStep_group_some (kind : TfKind) (tf : String → Except E String) 
             match interpUMapV tf r with
             | .error e => .error e
             | .ok r' => .ok (.group k' g' (some l') r') := by
-  show (match tf k with
+  show ((match tf k with
       | .error e => .error e
       | .ok k' =>
         match optM tf g with
@@ -1033,7 +1032,7 @@ theorem interpStep_group_some (kind : TfKind) (tf : String → Except E String) 
           | .ok ss' =>
             match interpUMapV tf r with
             | .error e => .error e
-            | .ok r' => .ok (.group k' g' ss' r')) = _
+            | .ok r' => .ok (.group k' g' ss' r')) : Except E Step) = _
   cases interpSteps kind tf l <;> rfl
 theorem interpSteps_nil (kind : TfKind) (tf : String → Except E String) :
     interpSteps kind tf [] = .ok [] := rfl
@@ -1096,5 +1095,168 @@ theorem interpPipelineRest_eq (g : String → String) (p : Pipeline)
   have h1 : optM (interpSteps .env (pureTf E g)) p.steps = .ok (p.steps.map (mapSteps g .env)) :=
     optM_eq _ _ _ (fun l hl => interpSteps_eq .env g l (hs l hl))
   simp only [interpPipelineRest, h1, interpUMapV_eq g p.rem hr, mapPipelineRest]
+
+/-! ## Structure: step kinds are preserved -/
+
+theorem interpStep_tag (kind : TfKind) (tf : String → Except E String) (s s' : Step)
+    (h : interpStep kind tf s = .ok s') : stepTag s' = stepTag s := by
+  cases s with
+  | command c => rw [interpStep_command] at h; obtain ⟨_, _, rfl⟩ := map_eq_ok h; rfl
+  | wait x c => rw [interpStep_wait] at h; obtain ⟨_, _, rfl⟩ := map_eq_ok h; rfl
+  | input x c => rw [interpStep_input] at h; obtain ⟨_, _, rfl⟩ := map_eq_ok h; rfl
+  | trigger c => rw [interpStep_trigger] at h; obtain ⟨_, _, rfl⟩ := map_eq_ok h; rfl
+  | unknown v => rw [interpStep_unknown] at h; obtain ⟨_, _, rfl⟩ := map_eq_ok h; rfl
+  | group k g ss r =>
+    cases ss with
+    | none =>
+      rw [interpStep_group_none] at h
+      repeat' split at h
+      all_goals first | (cases h; rfl) | cases h
+    | some l =>
+      rw [interpStep_group_some] at h
+      repeat' split at h
+      all_goals first | (cases h; rfl) | cases h
+
+theorem interpSteps_tags (kind : TfKind) (tf : String → Except E String) (l l' : List Step)
+    (h : interpSteps kind tf l = .ok l') : l'.map stepTag = l.map stepTag := by
+  induction l generalizing l' with
+  | nil => rw [interpSteps_nil] at h; cases h; rfl
+  | cons s r ih =>
+    rw [interpSteps_cons] at h
+    cases hs : interpStep kind tf s with
+    | error e => simp [hs] at h
+    | ok s' =>
+      simp only [hs] at h
+      cases hr : interpSteps kind tf r with
+      | error e => simp [hr] at h
+      | ok r' =>
+        simp only [hr, Except.ok.injEq] at h; subst h
+        simp [interpStep_tag kind tf s s' hs, ih r' hr]
+
+/-! ## Errors at step level -/
+
+theorem stringsStep_group (kind : TfKind) (k : String) (g : Option String) (ss : Option (List Step)) (r : UMap Val) :
+    stringsStep kind (.group k g ss r) =
+      k :: (g.toList ++ (match ss with | none => [] | some l => stringsSteps kind l) ++ stringsUMapV r) := by
+  cases ss <;> rfl
+
+theorem stringsSteps_cons (kind : TfKind) (s : Step) (r : List Step) :
+    stringsSteps kind (s :: r) = stringsStep kind s ++ stringsSteps kind r := rfl
+
+mutual
+  theorem interpStep_error (kind : TfKind) (tf : String → Except E String) : (s : Step) → (e : E) →
+      interpStep kind tf s = .error e → ∃ x ∈ stringsStep kind s, tf x = .error e
+    | .command c, e, h => by
+      rw [interpStep_command] at h
+      exact interpCommand_error kind tf e c (map_eq_error h)
+    | .wait _ c, e, h => by
+      rw [interpStep_wait] at h
+      exact interpUMapV_error tf e c (map_eq_error h)
+    | .input _ c, e, h => by
+      rw [interpStep_input] at h
+      exact interpUMapV_error tf e c (map_eq_error h)
+    | .trigger c, e, h => by
+      rw [interpStep_trigger] at h
+      exact interpUMapV_error tf e c (map_eq_error h)
+    | .unknown v, e, h => by
+      rw [interpStep_unknown] at h
+      exact interpVal_error tf e v (map_eq_error h)
+    | .group k g none r, e, h => by
+      rw [interpStep_group_none] at h
+      rw [stringsStep_group]
+      cases h1 : tf k with
+      | error e' =>
+        simp only [h1, Except.error.injEq] at h; subst h
+        exact ⟨k, by simp, h1⟩
+      | ok k' =>
+      simp only [h1] at h
+      cases h2 : optM tf g with
+      | error e' =>
+        simp only [h2, Except.error.injEq] at h; subst h
+        obtain ⟨a, rfl, ha⟩ := optM_error _ _ _ h2
+        exact ⟨a, by simp, ha⟩
+      | ok g' =>
+      simp only [h2] at h
+      cases h4 : interpUMapV tf r with
+      | error e' =>
+        simp only [h4, Except.error.injEq] at h; subst h
+        obtain ⟨y, hy, hye⟩ := interpUMapV_error tf e' _ h4
+        exact ⟨y, by simp [hy], hye⟩
+      | ok r' => simp [h4] at h
+    | .group k g (some l) r, e, h => by
+      rw [interpStep_group_some] at h
+      rw [stringsStep_group]
+      cases h1 : tf k with
+      | error e' =>
+        simp only [h1, Except.error.injEq] at h; subst h
+        exact ⟨k, by simp, h1⟩
+      | ok k' =>
+      simp only [h1] at h
+      cases h2 : optM tf g with
+      | error e' =>
+        simp only [h2, Except.error.injEq] at h; subst h
+        obtain ⟨a, rfl, ha⟩ := optM_error _ _ _ h2
+        exact ⟨a, by simp, ha⟩
+      | ok g' =>
+      simp only [h2] at h
+      cases h3 : interpSteps kind tf l with
+      | error e' =>
+        simp only [h3, Except.error.injEq] at h; subst h
+        obtain ⟨y, hy, hye⟩ := interpSteps_error kind tf l e' h3
+        exact ⟨y, by simp [hy], hye⟩
+      | ok l' =>
+      simp only [h3] at h
+      cases h4 : interpUMapV tf r with
+      | error e' =>
+        simp only [h4, Except.error.injEq] at h; subst h
+        obtain ⟨y, hy, hye⟩ := interpUMapV_error tf e' _ h4
+        exact ⟨y, by simp [hy], hye⟩
+      | ok r' => simp [h4] at h
+
+  theorem interpSteps_error (kind : TfKind) (tf : String → Except E String) : (l : List Step) → (e : E) →
+      interpSteps kind tf l = .error e → ∃ x ∈ stringsSteps kind l, tf x = .error e
+    | [], e, h => by rw [interpSteps_nil] at h; cases h
+    | s :: r, e, h => by
+      rw [interpSteps_cons] at h
+      rw [stringsSteps_cons]
+      cases hs : interpStep kind tf s with
+      | error e' =>
+        simp only [hs, Except.error.injEq] at h; subst h
+        obtain ⟨y, hy, hye⟩ := interpStep_error kind tf s e' hs
+        exact ⟨y, List.mem_append_left _ hy, hye⟩
+      | ok s' =>
+        simp only [hs] at h
+        cases hr : interpSteps kind tf r with
+        | error e' =>
+          simp only [hr, Except.error.injEq] at h; subst h
+          obtain ⟨y, hy, hye⟩ := interpSteps_error kind tf r e' hr
+          exact ⟨y, List.mem_append_right _ hy, hye⟩
+        | ok r' => simp [hr] at h
+end
+
+/-- If every string handed to the transformer expands, the call succeeds (contrapositive of
+    `interpStep_error`). -/
+theorem interpStep_ok (kind : TfKind) (tf : String → Except E String) (s : Step)
+    (h : ∀ x ∈ stringsStep kind s, ∃ y, tf x = .ok y) : ∃ s', interpStep kind tf s = .ok s' := by
+  apply ok_of_no_error
+  intro e he
+  obtain ⟨x, hx, hxe⟩ := interpStep_error kind tf s e he
+  obtain ⟨y, hy⟩ := h x hx
+  rw [hy] at hxe
+  cases hxe
+
+/-! ## The counterexample to plain image-distinctness (see the header) -/
+
+/-- `a ↦ b`, `b ↦ c`: images of the keys `a, b` are distinct, yet the entry `b` is lost. -/
+def cexG : String → String := fun s => if s = "a" then "b" else if s = "b" then "c" else s
+def cexV : Val := .omap [("a", .str "x"), ("b", .str "y")]
+
+/-- info: Except.ok (GoPipeline.Val.omap [("b", GoPipeline.Val.str "x")]) -/
+#guard_msgs in
+#eval interpVal (pureTf Unit cexG) cexV
+
+/-- info: GoPipeline.Val.omap [("b", GoPipeline.Val.str "x"), ("c", GoPipeline.Val.str "y")] -/
+#guard_msgs in
+#eval mapVal cexG cexV
 
 end GoPipeline.Interp
